@@ -45,8 +45,25 @@ def run(tier):
     if quick:
         rscen = rscen[::2]
     seqfam.run_scenarios(res, rscen, "TraceLifecycle", spec_dir=PIPE, tag="life-race", sub="life", timeout=3000, procs=8, race=True, crash_is_violation=True)
+    # the call protocol of one instance (spec/pipe/ApiProtocol.tla): EVERY sequence of public API calls up to the stated length, for three
+    # query kinds, enumerated by TLC and replayed on a real instance; TraceApi re-runs the machine over the recorded outcomes
+    api = []
+    L = 4 if quick else 5
+    for kind in ("direct", "agg", "cep"):
+        cfg = 'SPECIFICATION Spec\nCONSTANTS Kind = "%s" MaxLen = %d Emit = TRUE\nINVARIANTS TypeOK LostSinksStayLost EmitScenario\nPROPERTIES StoppedIsFinal NothingAfterStop\nCHECK_DEADLOCK FALSE\n' % (kind, L)
+        r = vlib.tlc(PIPE, "ApiProtocol", cfg, workers=1, timeout=1500)
+        if not r["ok"]:
+            raise vlib.Inconclusive("ApiProtocol failed:\n" + r["out"][-2000:])
+        res.add_model("ApiProtocol", r, {"Kind": kind, "MaxLen": L})
+        seqs = [json.loads(x[1]) for x in vlib.prints(r["out"], "SCEN")]
+        cap = 4000 if quick else 40000
+        if len(seqs) > cap:
+            seqs = rng.sample(seqs, cap)
+        api += [{"kind": kind, "calls": q} for q in seqs]
+    seqfam.run_scenarios(res, api, "TraceApi", spec_dir=PIPE, tag="api", sub="api", timeout=3000)
+    res.cov["api_call_sequences"] = len(api)
     res.cov["exhaustive"] = False
-    res.cov["distinct_nontrivial"] = len({json.dumps(s, sort_keys=True) for s in scen})
+    res.cov["distinct_nontrivial"] = len({json.dumps(s, sort_keys=True) for s in scen}) + len(api)
     res.cov["rule"] = ("directed schedules from the TLA+ Lifecycle model (an EmitSync inside its first synchronous sink while Stop runs to completion; Emit/EmitSync/GetStats/TriggerWindow/second Stop after Stop returned) for every query kind x strategy, "
                        "plus seeded free-running runs of 4-8 goroutines issuing random API calls (Emit, EmitSync, GetStats, TriggerWindow, AddSink, Stop) against sinks that are fast / slow / panicking / re-entrant; distinct = distinct scenario parameters")
     res.assumptions = ASSUME
